@@ -858,12 +858,10 @@ class t2grid(object):
             if num_missing == 1:
                 dirn = missing_dirns[0]
                 present_dirns = [1,2,3]; present_dirns.remove(dirn)
+                # origin block is in the (complete) bottom layer:
                 d = ob.volume
                 for pd in present_dirns:
-                    con = [con for con in ob.connection_name if
-                           grid.connection[con].direction == pd][0]
-                    i = con_name_index(con, ob.name)
-                    d /= (2. * grid.connection[con].distance[i])
+                    d /= spacings[pd][-1] if pd == 3 else spacings[pd][0]
                 spacings[dirn].append(d)
             elif num_missing == 2:
                 raise Exception("Mesh appears to be 1-D: can't reconstruct geometry.")
